@@ -95,10 +95,17 @@ impl<L: Language + 'static, N: Analysis<L> + 'static> Rewrite<L, N> {
         rule: &str,
         eg: &mut EGraph<L, N>,
     ) {
+        // All matches are instantiated before the first of them is united:
+        // an instantiation (in particular a substitution `b[x := t]`, which compares e-classes) must not depend on
+        // which of the other matches happen to have been applied already, as their order is arbitrary.
+        let mut todo = Vec::new();
         for subst in substs {
             if cond(&subst, eg) {
-                eg.union_instantiations(a, b, &subst, Some(rule.to_string()));
+                todo.push(eg.instantiate_both(a, b, &subst));
             }
+        }
+        for inst in todo {
+            eg.union_instantiated(inst, Some(rule.to_string()));
         }
     }
 }
